@@ -186,6 +186,61 @@ class Rig(object):
         finally:
             self.ua.Conversation.make_local_socket = orig
 
+    def process_tx_series(self, start_id, datas, mtu, secs=8.0):
+        ''' ONE agent whose transfer counter starts at `start_id` sends `datas` one after the other through
+        send_bundle_data + _process_tx_queue → [(id announced by send_bundle_started, datagrams handed on,
+        finished signals, escaped)] '''
+        ag = self.agent(mtu)
+        ag._tx_id = start_id
+
+        class FakeSock(object):
+            def sendmsg(self, *a, **k):
+                pass
+
+            def sendto(self, *a, **k):
+                pass
+
+            def setsockopt(self, *a, **k):
+                pass
+
+            def fileno(self):
+                return -1
+
+            def close(self):
+                pass
+
+        orig = self.ua.Conversation.make_local_socket
+        self.ua.Conversation.make_local_socket = lambda _self: FakeSock()
+        out = []
+        try:
+            for data in datas:
+                nsig = len(ag._verif_signals)
+                handed = []
+
+                def go():
+                    ag.send_bundle_data(list(data), {'address': '10.0.0.1'})
+                    ag._process_tx_queue()
+                    for sw in ag._send_wait.values():
+                        while sw.tx_item_queue:
+                            ti = sw.tx_item_queue.pop(0)
+                            for d in ti.dgram_iter:
+                                handed.append(bytes(d))
+                try:
+                    guarded(go, secs)
+                    esc = None
+                except Hang:
+                    esc = 'hang'
+                except Exception as err:   # noqa
+                    esc = type(err).__name__
+                sigs = [(name, tuple(args)) for (_p, name, _sig, args) in ag._verif_signals[nsig:] if name.startswith('send_bundle')]
+                started = [a[0] for (n, a) in sigs if n == 'send_bundle_started']
+                out.append((started[0] if started else None, handed, [list(a) for (n, a) in sigs if n == 'send_bundle_finished'], esc))
+            for sw in ag._send_wait.values():
+                sw.stop()
+            return out
+        finally:
+            self.ua.Conversation.make_local_socket = orig
+
     def recv(self, dgrams, reject=False):
         ''' → (outcomes, queue-size snapshots, final queue [{id,addr,port,len,hex}]) '''
         ag = self.agent(None, require_tls=reject)
@@ -218,6 +273,16 @@ def payload(n, salt=0):
     # starts like a BPv7 bundle (indefinite array), never all-zero
     body = bytes(((i * 13 + salt) % 251) + 1 for i in range(n))
     return (b'\x9f' + body[1:]) if n else b''
+
+
+def zpayload(n, kind):
+    ''' bundle-shaped data rich in zero octets: segments then end in 0x00 at many MTUs '''
+    if kind == 0:
+        return bytes(n)                                          # all zeros
+    if kind == 1:
+        return (b'\x9f' + bytes(n - 2) + b'\xff') if n >= 2 else bytes(n)
+    k = kind + 1
+    return bytes(0 if i % k == k - 1 else (i * 13) % 251 + 1 for i in range(n))
 
 
 def send_monitors(xid, data, mtu, segs):
@@ -369,6 +434,38 @@ def run_send(chk, rig, cases):
                 chk.violation(sig, what, rep)
 
 
+def run_send_series(chk, rig):
+    ''' several same-length transfers from ONE agent whose transfer ids cross a CBOR head boundary, with a
+    (length, MTU) pair that leaves no slack: the sizing must follow the id of each transfer '''
+    thorough = chk.tier == 'thorough'
+    pairs = [(1000, 400), (300, 60)] + ([(256, 100), (70000, 1280), (24, 24), (65536, 9000)] if thorough else [])
+    reqs, obs = [], []
+    for b in (24, 256, 65536, 2 ** 32):
+        for (L, m) in pairs:
+            ids = list(range(b - 2, b + 2))
+            datas = [payload(L, 3) for _i in ids]
+            res = rig.process_tx_series(ids[0], datas, m)
+            for xid, data, r in zip(ids, datas, res):
+                reqs.append({'op': 'udpcl.send', 'id': xid, 'data': data.hex(), 'mtu': m})
+                obs.append((ids[0], xid, data, m, r))
+    for (first, xid, data, m, (started, handed, fin, esc)), ans in zip(obs, chk.driver(reqs)):
+        rep = {'kind': 'series', 'first_id': first, 'n': xid - first + 1, 'len': len(data), 'salt': 3, 'mtu': m}
+        chk.case({'series': first, 'id': xid, 'len': len(data), 'mtu': m}, nontrivial=True, sample=(xid == first + 2 and m == 400))
+        chk.cov['traces_validated_against_impl'] += 1
+        chk.count('send-series:transfers')
+        if esc == 'hang':
+            chk.violation('C13:mtu-too-small-nonterminating', 'transfer %d of a series does not return (mtu %d, %d octets)' % (xid, m, len(data)), rep)
+            continue
+        if str(started) != str(xid):
+            chk.violation('C13:tx-id-wrong', 'the transfer after counter value %d was started as %r' % (xid, started), rep)
+        if esc is not None or [d.hex() for d in handed] != ans.get('handed') or bool(fin) != bool(ans.get('finished')):
+            chk.corr_break('transfer %d of a series from one agent differs from the model: escaped %s, datagram sizes %s (model %s), finished %s'
+                           % (xid, esc, [len(d) for d in handed][:6], [len(h) // 2 for h in ans.get('handed', [])][:6], fin), rep)
+        if not fin:
+            for sig, what in send_monitors(xid, data, m, handed):
+                chk.violation(sig, 'transfer id %d (series starting at id %d on one agent): %s' % (xid, first, what), rep)
+
+
 # ---------------------------------------------------------------- receive side
 class Ref(object):
     ''' independent reference receiver over structured messages (not octets) '''
@@ -516,6 +613,33 @@ def recv_scenarios(chk, rig):
             order = list(range(len(parts)))
             rng.shuffle(order)
             scs.append(mk_scenario(rng, [(PEERS[1], 9, data, parts)], [(0, p) for p in order]))
+    # (b') data whose segments end in zero octets, every segment in its own unpadded datagram: padding is
+    # recognised per message, never stripped from the end of a datagram
+    mtus = list(range(64, 129)) if thorough else [67] + rng.sample(range(64, 129), 7)
+    for m in mtus:
+        kind = rng.choice([0, 1, 2, 3, 6])
+        data = zpayload(386, kind)
+        k2, segs = rig.send(11, data, m, 4.0)
+        if k2 != 'ok' or len(segs) < 2:
+            continue
+        parts = [(rd_transfer(x)[2], rd_transfer(x)[3]) for x in segs]
+        order = list(range(len(parts)))
+        if rng.random() < 0.5:
+            rng.shuffle(order)
+        sc = mk_scenario(rng, [(PEERS[0], 11, data, parts)], [(0, p) for p in order])
+        sc['zeros'] = True
+        scs.append(sc)
+    for n in (2, 5):
+        for kind in (0, 1, 2):
+            data = zpayload(rng.choice([n, 40, 300]) if n > 1 else 9, kind)
+            if len(data) < n:
+                data = zpayload(n + 5, kind)
+            parts = split_parts(rng, data, n)
+            order = list(range(n))
+            rng.shuffle(order)
+            sc = mk_scenario(rng, [(PEERS[2], 3, data, parts)], [(0, p) for p in order], compose=rng.choice([0, 0.7]))
+            sc['zeros'] = True
+            scs.append(sc)
     # (c) 2-3 interleaved transfers / peers (same id from different peers, different ids from one peer)
     for _ in range(300 if thorough else 60):
         k = rng.choice([2, 3])
@@ -549,6 +673,12 @@ def malformed_scenarios(chk):
             scs.append({'kind': 'recv', 'reject': False, 'dgrams': [
                 {'addr': '10.0.0.2', 'port': 4556, 'hex': (pre + f + good2).hex()},
                 {'addr': '10.0.0.2', 'port': 4556, 'hex': good2.hex()}]})
+    # whole bundles whose last octet is 0x00, alone, followed by another message, followed by padding
+    bun0 = b'\x82\x01\x00'
+    for tail in (b'', good2, b'\x00\x00', bun0):
+        scs.append({'kind': 'recv', 'reject': False, 'dgrams': [
+            {'addr': '10.0.0.2', 'port': 4556, 'hex': (bun0 + tail).hex()},
+            {'addr': '10.0.0.2', 'port': 4556, 'hex': (good + bun0).hex()}]})
     # unknown extension keys next to the transfer, and a map without it
     extra = b'\xa2' + cb_head(0, 9) + b'\x82\x01\x02' + good[1:]
     extra2 = b'\xa2' + good[1:] + cb_head(0, 200) + b'\x9f\x01\xff'
@@ -634,8 +764,11 @@ def _rxq_phase(rng, first_idx, n, peers, pack, with_xfers, pop, order):
         peer = peers[i % len(peers)]
         data = _rxq_bundle(idx, 3 + (idx * 5) % 40)
         if with_xfers and i % 2 == 1:
+            # the peer's transfer id coincides with a receive id that is queued already (idx - 1), with the one
+            # this bundle gets (idx), or with the one allocated next (idx + 1)
+            xid = [idx - 1, idx + 1, idx][(i // 2) % 3]
             parts = split_parts(rng, data, rng.choice([2, 3]))
-            msgs = [['seg', 1000 + idx, len(data), off, ch.hex()] for (off, ch) in parts]
+            msgs = [['seg', xid, len(data), off, ch.hex()] for (off, ch) in parts]
         else:
             msgs = [['bundle', data.hex()]]
         for m in msgs:
@@ -669,13 +802,13 @@ def rx_queue_histories(rng, tier):
     for n in (2, 3, 11):
         for peers in ([PEERS[0]], [PEERS[0], PEERS[1]]):
             for pack in ('one', 'each'):
-                hs.append({'kind': 'rxq', 'phases': [_rxq_phase(rng, 0, n, peers, pack, n == 3, 'all', 'listed')]})
+                hs.append({'kind': 'rxq', 'phases': [_rxq_phase(rng, 0, n, peers, pack, n != 2 or pack == 'each', 'all', 'listed')]})
     # pop some, receive more, pop all, receive again after the queue ran empty
     for peers in ([PEERS[0]], [PEERS[0], PEERS[2]]):
         hs.append({'kind': 'rxq', 'phases': [
-            _rxq_phase(rng, 0, 3, peers, 'one', False, 'half', 'listed'),
+            _rxq_phase(rng, 0, 3, peers, 'one', True, 'half', 'listed'),
             _rxq_phase(rng, 3, 3, peers, 'each', True, 'all', 'reversed'),
-            _rxq_phase(rng, 6, 2, peers, 'one', False, 'all', 'listed')]})
+            _rxq_phase(rng, 6, 2, peers, 'one', True, 'all', 'listed')]})
     for _ in range(150 if tier == 'thorough' else 12):
         phases, idx = [], 0
         for _ph in range(rng.randrange(1, 4)):
@@ -889,6 +1022,7 @@ def run(chk):
         'CBOR delimiting of whole-bundle messages (skipItem vs cbor2.load) is tied by this correspondence run only, on arrays/maps/strings/ints/simple values; tags with semantic decoding, floats and invalid UTF-8 are not generated',
     ]
     run_send(chk, rig, send_cases(chk))
+    run_send_series(chk, rig)
     run_recv(chk, rig, recv_scenarios(chk, rig), 'reasm')
     run_recv(chk, rig, malformed_scenarios(chk), 'dispatch')
     run_ranges(chk, rig)
@@ -930,6 +1064,17 @@ def replay(chk, path):
         for sig, what in viol:
             print('MONITOR %s: %s' % (sig, what))
         return 1 if viol else 0
+    if rep.get('kind') == 'series':
+        ids = list(range(rep['first_id'], rep['first_id'] + rep['n']))
+        data = payload(rep['len'], rep.get('salt', 3))
+        res = rig.process_tx_series(ids[0], [data] * len(ids), rep['mtu'])
+        rc = 0
+        for xid, (started, handed, fin, esc) in zip(ids, res):
+            viol = send_monitors(xid, data, rep['mtu'], handed) if not fin else []
+            print('transfer id %s (started as %s): datagram sizes %s, finished %s, escaped %s %s' % (
+                xid, started, [len(d) for d in handed][:8], fin, esc, ['MONITOR %s: %s' % v for v in viol]))
+            rc = rc or (1 if viol else 0)
+        return rc
     if rep.get('kind') == 'rxq':
         trace, bad = run_rx_queue_history(rig, rep, chk.rng)
         for t in trace:
